@@ -70,6 +70,10 @@ theorem not_reserved_iff {k : String} :
   simp [reserved]
 
 mutual
+/-- an invariant of every query the parser returns (a superset of its image, chosen so
+that `parseRestriction (print q) = some q` holds on it): `Or` and `Exist` lists are never
+empty, and no leaf has one of the four reserved keys as its tag. `And` lists of any
+length (empty, singleton) are fine. -/
 def Good : Query → Prop
   | .and l => GoodL l
   | .or l => l ≠ [] ∧ GoodL l
@@ -83,6 +87,7 @@ def Good : Query → Prop
   | .like k _ => k ∉ reserved
   | .isIn k _ => k ∉ reserved
   | .exist ks => ks ≠ []
+/-- `Good` for every member -/
 def GoodL : List Query → Prop
   | [] => True
   | q :: r => Good q ∧ GoodL r
@@ -792,5 +797,44 @@ theorem processFilter_iff_leafSat (tag value : String) :
           | none => rfl
           | some v => exact absurd ((hasKey_iff_lookup vals n).mpr ⟨v, h⟩) hk
         simp [hk, hl, isAttrOperator_iff]
+
+/-! ## printed values are well-formed JSON objects (keys sorted, unique) -/
+
+theorem wfList_eq (l : List Json) : wfList l = l.all Json.WF := by
+  induction l with
+  | nil => simp [wfList]
+  | cons j r ih => simp [wfList, ih]
+
+theorem wfList_strs (vs : List String) : wfList (vs.map Json.str) = true := by
+  induction vs with
+  | nil => rfl
+  | cons a r ih => simp [wfList, Json.WF, ih]
+
+theorem print_wf (q : Query) : (print q).WF = true := by
+  induction q using Query.induct with
+  | and l ih =>
+    cases l with
+    | nil => rfl
+    | cons a r =>
+      have : wfList (printList (a :: r)) = true := by
+        rw [wfList_eq, printList_eq_map]
+        simp only [List.all_map, List.all_eq_true]
+        exact fun q hq => ih q hq
+      simp only [printList] at this
+      simp [print, Json.WF, wfEntries, keysSorted, this]
+  | or l ih =>
+    cases l with
+    | nil => rfl
+    | cons a r =>
+      have : wfList (printList (a :: r)) = true := by
+        rw [wfList_eq, printList_eq_map]
+        simp only [List.all_map, List.all_eq_true]
+        exact fun q hq => ih q hq
+      simp only [printList] at this
+      simp [print, Json.WF, wfEntries, keysSorted, this]
+  | not q ih => simp [print, Json.WF, wfEntries, keysSorted, ih]
+  | isIn k vs => simp [print, Json.WF, wfEntries, keysSorted, wfList_strs]
+  | exist ks => simp [print, Json.WF, wfEntries, keysSorted, wfList_strs]
+  | _ => simp [print, Json.WF, wfEntries, keysSorted]
 
 end AnonModel.Query
